@@ -173,16 +173,55 @@ Example C02_ex_layouts :
 Proof. exact layout_examples. Qed.
 Print Assumptions C02_ex_layouts.
 
-(** (c) Registration (model UDial.Reg of doDial's handler-map write, ReplaceWithClosed with its
-    guarded expiry, Remove): from the moment doDial registered dial k under its source connection
-    ID, packets with that ID are routed to dial k -- from ANY earlier state of the map (whatever
-    dials 1..k-1 left behind: closed-connection entries, armed timers) and through ANY later
-    sequence of timer expiries and of operations under other IDs. *)
+(** (c) Registration (model UDial.Reg of doDial's handler-map registration, ReplaceWithClosed with
+    its guarded expiry, Remove). A dial is accepted unless the source connection ID belongs to a
+    connection that is still OPEN -- whatever closed connections left behind (closed-connection
+    entries, armed timers) never makes it fail ... *)
+Theorem C02_dial_accepted_unless_open : forall st k id,
+  snd (rgdial st k id) = true <-> (forall j, route st id <> Some (Live j)).
+Proof. exact dial_accepted_unless_open. Qed.
+Print Assumptions C02_dial_accepted_unless_open.
+
+(** ... and an accepted dial k owns its ID: from ANY earlier state of the map, through ANY later
+    sequence of enabled operations -- other dials under the same ID (refused), closes and destroys
+    of other connections, every timer expiry -- packets with that ID are routed to connection k,
+    until connection k itself is closed or destroyed. (Enabled: a connection is closed or destroyed
+    only while it is the open connection registered under its ID.) A refused dial changes nothing
+    and leaves the open connection its entry. *)
 Theorem C02_redial_registered : forall ops st k id,
-  Forall (harmless id) ops ->
-  route (rgrun (rgstep st (RgDial k id)) ops) id = Some (Live k).
+  snd (rgdial st k id) = true ->
+  wf_run (fst (rgdial st k id)) ops = true ->
+  Forall (not_own_end k id) ops ->
+  route (rgrun (fst (rgdial st k id)) ops) id = Some (Live k).
 Proof. exact redial_registered. Qed.
 Print Assumptions C02_redial_registered.
+
+Theorem C02_dial_result : forall st k id,
+  (snd (rgdial st k id) = true -> route (fst (rgdial st k id)) id = Some (Live k)) /\
+  (snd (rgdial st k id) = false -> fst (rgdial st k id) = st /\ exists j, route st id = Some (Live j)).
+Proof. exact rgdial_result. Qed.
+Print Assumptions C02_dial_result.
+
+Example C02_ex_redial_history :
+  let st := rgrun (RG [] []) [RgDial 1 0; RgClose 1 0] in
+  let ops := [RgExpire 1 0; RgDial 3 0; RgDial 4 7; RgClose 4 7] in
+  snd (rgdial st 2 0) = true /\ wf_run (fst (rgdial st 2 0)) ops = true /\
+  Forall (not_own_end 2 0) ops /\ route (rgrun (fst (rgdial st 2 0)) ops) 0 = Some (Live 2).
+Proof. exact redial_history_ok. Qed.
+Print Assumptions C02_ex_redial_history.
+
+(** Regression: before fixes/C02-empty-scid-one-open-connection.patch a dial overwrote the entry of
+    an OPEN connection with the same (zero-length) ID; the end of that connection then cut the
+    new one off as well. *)
+Example C02_ex_overlap_refuted :
+  let st1 := rgstep (RG [] []) (RgDial 1 0) in
+  let st2 := overwrite_dial st1 2 0 in
+  route st2 0 = Some (Live 2) /\
+  route (rgstep st2 (RgDestroy 1 0)) 0 = None /\
+  route (rgstep st2 (RgClose 1 0)) 0 = Some (Tomb 1) /\
+  rgdial st1 2 0 = (st1, false) /\ route st1 0 = Some (Live 1).
+Proof. exact overlap_refuted. Qed.
+Print Assumptions C02_ex_overlap_refuted.
 
 (** A gracefully closed connection's entry is removed by its own timer (no leak). *)
 Theorem C02_tombstone_expires : forall st k id,
